@@ -6,12 +6,29 @@ import (
 )
 
 func init() {
-	Register(&Driver{ID: "C36", Gen: c36Gen, Run: c36Run, Shrink: collShrink})
+	Register(&Driver{ID: "C36", Gen: c36Gen, Run: c36Run, Shrink: c36Shrink})
+}
+
+func c36Shrink(raw json.RawMessage) []json.RawMessage {
+	var probe struct {
+		Kind string `json:"kind"`
+	}
+	if json.Unmarshal(raw, &probe) == nil && probe.Kind == "shutdown" {
+		var in c36sInput
+		if json.Unmarshal(raw, &in) != nil {
+			return nil
+		}
+		return c36sShrink(in)
+	}
+	return collShrink(raw)
 }
 
 // C36: a collector history cut by Stop at a random point (crash point = any prefix), with buffered
 // traces, pending late spans, ticks and ejections before it.
 func c36Gen(r *rand.Rand, tier string, i int) any {
+	if i%2 == 1 { // the whole shutdown sequence: collector + real transmissions + scripted API
+		return c36sGen(r, tier)
+	}
 	in := collGen(r, tier, collBias{Tick: 18, Eject: 6, Reload: 5, Stop: true})
 	if len(in.Ops) == 0 || in.Ops[len(in.Ops)-1].Op != "stop" {
 		in.Ops = append(in.Ops, collOp{Op: "stop"})
@@ -36,6 +53,16 @@ func c36Gen(r *rand.Rand, tier string, i int) any {
 }
 
 func c36Run(raw json.RawMessage) (Case, error) {
+	var probe struct {
+		Kind string `json:"kind"`
+	}
+	if json.Unmarshal(raw, &probe) == nil && probe.Kind == "shutdown" {
+		var sin c36sInput
+		if err := json.Unmarshal(raw, &sin); err != nil {
+			return Case{}, err
+		}
+		return c36sRun(sin)
+	}
 	var in collInput
 	if err := json.Unmarshal(raw, &in); err != nil {
 		return Case{}, err
@@ -45,7 +72,7 @@ func c36Run(raw json.RawMessage) (Case, error) {
 		return Case{}, err
 	}
 	if len(res.Obs) == 0 {
-		return Case{Coq: collEmptyCase, Key: "empty"}, nil
+		return Case{Coq: "(CColl " + collEmptyCase + ")", Key: "empty"}, nil
 	}
 	tags := collTags(res)
 	last := res.Obs[len(res.Obs)-1]
@@ -60,6 +87,6 @@ func c36Run(raw json.RawMessage) (Case, error) {
 			tags = append(tags, "stop-with-empty-buffers")
 		}
 	}
-	return Case{Coq: collCoq(res), Key: string(raw), Nontriv: res.Stopped && len(res.Obs) > 1,
+	return Case{Coq: "(CColl " + collCoq(res) + ")", Key: string(raw), Nontriv: res.Stopped && len(res.Obs) > 1,
 		Tags: tags, Summary: collSummary(res)}, nil
 }
